@@ -793,7 +793,7 @@ func init() {
 							level = 1
 							acks = "the first acknowledgement"
 						}
-						c13AckAhead(c, level, r.Intn(3), []int{0, 1, 2, 5, 1 << 20}[r.Intn(5)], acks, outcome)
+						c13AckAhead(c, "C13", level, r.Intn(3), []int{0, 1, 2, 5, 1 << 20}[r.Intn(5)], acks, outcome)
 						inputs++
 					}
 				}
